@@ -286,8 +286,14 @@ func roundTripCase(c *Ctx, i int64, prop string) {
 		bound := lz4.CompressBlockBound(len(src))
 		dlens := []int{bound}
 		if prop == "C10" {
-			// partial successes: smaller destinations must still give strictly valid blocks
+			// partial successes: smaller destinations must still give strictly valid blocks;
+			// the sizes around the achievable size n* are where "just fits" happens
 			dlens = append(dlens, len(src), len(src)/2+8, bound-1, bound+5)
+			probe := make([]byte, bound)
+			var nstar int
+			if !c.Guard(e.name, func() { nstar, _ = e.call(src, probe) }) && nstar > 0 {
+				dlens = append(dlens, nstar, nstar+1, nstar-1)
+			}
 		} else if g.N(4) == 0 {
 			dlens = append(dlens, bound+1+g.N(64))
 		}
